@@ -116,13 +116,44 @@ def check(ctx):
     ctx.ob("R1", "GeckoSwitch.is_on::reads-own-state", "self._state_sensor.state" in ast.unparse(iso.node), "is_on does not read the device's state sensor", iso.loc)
 
     # ---- R3 siblings --------------------------------------------------------------------
+    # Semantic agreement: both twins emit the same set of device effects (key press /
+    # accessor write), with the same arguments, under the same guard facts.  Local aliases
+    # are expanded and logging ignored, so re-shaped if/else, extracted locals, renamed
+    # variables or different log texts do not matter.
+    def effects(fi):
+        g = cfg_of(fi)
+        out = set()
+        for n in g.stmt_nodes():
+            facts = frozenset((t, p) for t, p in g.guard_atoms(n) if "_LOGGER" not in t)
+            for c in n.calls():
+                nm = call_name(c)
+                if nm in ("press", "async_press"):
+                    out.add(("press", ast.unparse(g.expand(c.func.value, at=n)), tuple(ast.unparse(g.expand(a, at=n)) for a in c.args), facts))
+                elif nm == "async_set_value":
+                    out.add(("write", ast.unparse(g.expand(c.func.value, at=n)), tuple(ast.unparse(g.expand(a, at=n)) for a in c.args), facts))
+            if isinstance(n.ast, ast.Assign) and len(n.ast.targets) == 1 and isinstance(n.ast.targets[0], ast.Attribute) and n.ast.targets[0].attr == "value":
+                out.add(("write", ast.unparse(g.expand(n.ast.targets[0].value, at=n)), (ast.unparse(g.expand(n.ast.value, at=n)),), facts))
+        return out
+
+    def canon(effs):
+        # guard facts: keep only facts about the request/device state, drop alias-expansion duplicates
+        res = set()
+        for kind, tgt, args, facts in effs:
+            f2 = frozenset((t, p) for t, p in facts if not t.isidentifier())
+            res.add((kind, tgt, args, f2))
+        return res
+
     pairs = [("GeckoSwitch", "turn_on", "async_turn_on"), ("GeckoSwitch", "turn_off", "async_turn_off"), ("GeckoPump", "set_mode", "async_set_mode"),
              ("GeckoWaterHeater", "set_target_temperature", "async_set_target_temperature"), ("GeckoWaterHeater", "set_temperature_unit", "async_set_temperature_unit")]
     for cname, a, b in pairs:
         fa, fb = repo.own_method(cname, a), repo.own_method(cname, b)
-        na, nb = normalised(fa), normalised(fb)
-        ctx.ob("R3", f"{cname}.{a}~{b}", na == nb, f"{cname}.{a} and {cname}.{b} differ after normalisation:\n--- {a}\n{na}\n--- {b}\n{nb}", fb.loc,
-               sample={"rule": "R3", "pair": f"{cname}.{a}/{b}", "equal": na == nb})
+        ea, eb = canon(effects(fa)), canon(effects(fb))
+        ctx.ob("R3", f"{cname}.{a}~{b}::has-effects", bool(ea) and bool(eb), f"{cname}.{a}/{b}: no device effect found", fb.loc)
+        only_a = sorted((k, t, x, sorted(f)) for k, t, x, f in ea - eb)
+        only_b = sorted((k, t, x, sorted(f)) for k, t, x, f in eb - ea)
+        ctx.ob("R3", f"{cname}.{a}~{b}", ea == eb,
+               f"{cname}.{a} and {cname}.{b} do not emit the same device effects under the same conditions: only in {a}: {only_a}; only in {b}: {only_b}", fb.loc,
+               sample={"rule": "R3", "pair": f"{cname}.{a}/{b}", "effects": sorted((k, t, x) for k, t, x, f in ea)})
 
     # ---- R4 write targets ------------------------------------------------------------------
     for nm in ("set_mode", "async_set_mode"):
